@@ -30,7 +30,10 @@ LEVEL = "exploration"
 BUDGET = {"quick": 80, "thorough": 1500}
 RULE = (
     "(a) all 1,114,112 code points x 5 grammars (always complete); (b) (code point, "
-    "position, configuration) triples: quick = code points 0..0x2FF, every range "
+    "position, configuration) triples over 8 basic label positions plus every gap "
+    "of a 38-token label that has each statement form (the character as its own "
+    "token and glued to the preceding token; for code points < 0x100, 14 larger ones "
+    "and every 997th): quick = code points 0..0x2FF, every range "
     "boundary +-2 (8/9, 13/14, 31/32, 126/127, 159/160, 255/256, 0xD7FF/0xD800, "
     "0xDFFF/0xE000, 0xFFFF/0x10000, 0x10FFFF) and 1500 random code points; thorough "
     "= every code point. Non-trivial = the character is disallowed by the grammar "
@@ -91,6 +94,32 @@ POSITIONS = {
     "after-END": lambda c: HEAD + f"k = 1\nEND\n{c} trailing",
     "lone-line-end": lambda c: HEAD + f"k = 1 {c}\nEND\n",
 }
+# every gap of a small label that exercises each statement form: the character as a
+# token of its own ("gapNN") and glued to the end of the preceding token ("glueNN")
+GAP_TOKENS = ["x", "=", "0", "OBJECT", "=", "o", "k", "=", "(", "1", ",", "'q'", ")",
+              "GROUP", "=", "g", "j", "=", "2", "<m>", ";", "END_GROUP", "u", "=", "3",
+              "END_GROUP", "=", "g", "z", "=", "{", "a", "}", "END_OBJECT", "END"]
+GAP_TOKENS[21] = "END_GROUP"          # bare end keyword (no '= name')
+GAP_TOKENS[22:25] = ["GROUP", "=", "h", "u", "=", "3"]
+
+
+def _gap_text(i, c, glue):
+    toks = list(GAP_TOKENS)
+    if glue:
+        left = " ".join(toks[:i]) + c
+    else:
+        left = " ".join(toks[:i]) + " " + c
+    return HEAD + left + " " + " ".join(toks[i:]) + "\n"
+
+
+for _i in range(1, len(GAP_TOKENS)):
+    POSITIONS[f"gap{_i:02d}"] = (lambda c, _i=_i: _gap_text(_i, c, False))
+    POSITIONS[f"glue{_i:02d}"] = (lambda c, _i=_i: _gap_text(_i, c, True))
+BASIC_SET = {"name", "unquoted", "quoted", "comment", "units", "between", "after-END",
+             "lone-line-end"}
+GAP_EXTRA = {0x100, 0x17F, 0x3B1, 0x2028, 0x20AC, 0xD7FF, 0xD800, 0xDFFF, 0xE000, 0xFEFF,
+             0xFFFF, 0x10000, 0x1F600, 0x10FFFF}
+BASIC_POSITIONS = [k for k in POSITIONS if not k.startswith(("gap", "glue"))]
 CONFIGS = ["PVL", "ODL", "PDS3", "PVL-loads", "ODL-loads", "PDS3-loads", "default"]
 
 
@@ -196,16 +225,20 @@ def codepoints_quick(seed):
     return sorted(cps)
 
 
-def positioned(acc, cps=None, lo=None, hi=None):
+def positioned(acc, cps=None, lo=None, hi=None, all_gaps=True):
     if cps is None:
         cps = range(lo, hi)
     for o in cps:
         if acc.expired():
             acc.notes["budget_exhausted"] = 1
             return
+        names = POSITIONS if ((all_gaps and (o < 0x100 or o in GAP_EXTRA))
+                              or o % 997 == 0) else BASIC_POSITIONS
         for cfg in CONFIGS:
             gname = cfg.split("-")[0]
-            for posname in POSITIONS:
+            for posname in names:
+                if posname not in BASIC_SET and allowed(gname, o) and o % 16:
+                    continue        # gap positions matter for disallowed characters
                 r = check_one(cfg, posname, o)
                 nt = (not allowed(gname, o)) or o > 127
                 acc.case(key=f"{cfg}|{posname}|{o}", nontrivial=nt,
@@ -232,7 +265,12 @@ def shards(tier, seed):
     else:
         step = 0x110000 // 512
         for lo in range(0, 0x110000, step):
-            out.append(("positioned", dict(lo=lo, hi=min(0x110000, lo + step))))
+            out.append(("positioned", dict(lo=lo, hi=min(0x110000, lo + step),
+                                           all_gaps=False)))
+        cps = codepoints_quick(seed)
+        k = (len(cps) + 31) // 32
+        for i in range(0, len(cps), k):
+            out.append(("positioned", dict(cps=cps[i:i + k])))
     return out
 
 
